@@ -178,26 +178,38 @@ def _xyz(lon, lat):
     return [float(np.cos(lat) * np.cos(lon)), float(np.cos(lat) * np.sin(lon)), float(np.sin(lat))]
 
 
+TREE_CTX = {}  # public element counts of the grid the observed tree was requested from
+
+
 def tree_digest(t):
-    """a tree is observed through its answers to a fixed query battery"""
+    """a tree is observed through its answers to a fixed query battery.  k is drawn from the
+    BOUNDARIES of the grid's public element counts (never from the wrapper's own bookkeeping), so
+    that what the wrapper accepts / rejects — and with which exception type — is part of the
+    observation; radii 0 / tiny / moderate / huge."""
     out = {"coords": ["str", str(t._coordinates)], "system": ["str", str(t.coordinate_system)],
            "metric": ["str", str(t.distance_metric)]}
-    n = int(t._n_elements)
-    k = max(1, min(3, n))
+    counts = dict(TREE_CTX)
+    n_kind = counts.get({"nodes": "n_node", "face centers": "n_face", "edge centers": "n_edge"}.get(str(t._coordinates), ""), 3)
+    ks = []
+    for k in [1, 2, 3, n_kind, n_kind + 1, 0] + [c + d for c in counts.values() for d in (0, 1)]:
+        if k not in ks:
+            ks.append(k)
+    sph = t.coordinate_system == "spherical"
     for i, (lon, lat) in enumerate(QUERY_LONLAT):
-        q = [lon, lat] if t.coordinate_system == "spherical" else _xyz(lon, lat)
-        try:
-            d, ind = t.query(q, k=k, return_distance=True)
-            out[f"knn{i}"] = ["seq", [canon(np.asarray(d)), canon(np.asarray(ind))]]
-        except Exception as e:
-            out[f"knn{i}"] = ["raises", type(e).__name__]
-        try:
-            r = 25.0 if t.coordinate_system == "spherical" else 0.4
-            d, ind = t.query_radius(q, r=r, return_distance=True)
-            o = np.argsort(np.asarray(ind), kind="stable")
-            out[f"rad{i}"] = ["seq", [canon(np.asarray(d)[o]), canon(np.asarray(ind)[o])]]
-        except Exception as e:
-            out[f"rad{i}"] = ["raises", type(e).__name__]
+        q = [lon, lat] if sph else _xyz(lon, lat)
+        for k in (ks if i == 0 else [min(3, max(1, n_kind))]):
+            try:
+                d, ind = t.query(q, k=k, return_distance=True)
+                out[f"knn{i}:k={k}"] = ["seq", [canon(np.asarray(d)), canon(np.asarray(ind))]]
+            except Exception as e:
+                out[f"knn{i}:k={k}"] = ["raises", type(e).__name__]
+        for r in ([0.0, 1e-9, 25.0 if sph else 0.4, 180.0 if sph else 3.0] if i == 0 else [25.0 if sph else 0.4]):
+            try:
+                d, ind = t.query_radius(q, r=r, return_distance=True)
+                o = np.argsort(np.asarray(ind), kind="stable")
+                out[f"rad{i}:r={r}"] = ["seq", [canon(np.asarray(d)[o]), canon(np.asarray(ind)[o])]]
+            except Exception as e:
+                out[f"rad{i}:r={r}"] = ["raises", type(e).__name__]
     return ["tree", type(t).__name__, out]
 
 
@@ -566,6 +578,11 @@ def observe(g, op):
         with warnings.catch_warnings():
             warnings.simplefilter("ignore")
             r = apply_op(g, op)
+            TREE_CTX.clear()
+            if op[0] in ("ball", "kd"):
+                TREE_CTX.update(n_node=int(g.n_node), n_face=int(g.n_face))
+                if op[1].get("coords") == "edge centers":
+                    TREE_CTX["n_edge"] = int(g.n_edge)
             c = canon(r)
     except Exception as e:
         c = ["raises", type(e).__name__, str(e)[:160]]
@@ -1294,6 +1311,11 @@ def ops_for(spec, info=None):
             ["bcircle", {"center": pf, "r": 30, "element": "face centers"}],
             ["nn", {"center": [10, 20], "k": 2}], ["nn", {"center": [10, 20], "k": 2, "element": "face centers"}],
             ["nn", {"center": [-100, -40], "k": 1, "element": "edge centers"}]]
+    # k at the boundaries of the element counts (accepted / rejected is part of the observation)
+    nn_, nf_ = int(info.get("n_node", 4)), int(info.get("n_face", 2))
+    for k in sorted({nf_, nf_ + 1, nn_, nn_ + 1}):
+        for el in ("nodes", "face centers", "edge centers"):
+            ops.append(["nn", {"center": pn, "k": k, "element": el}])
     ops += [["dual", {}], ["copy", {}], ["const_lat_edges", {"lat": 25.0}], ["const_lat_faces", {"lat": 25.0}],
             ["cross_section", {"lat": 25.0}], ["repr", {}], ["validate", {}]]
     return ops
@@ -1322,6 +1344,9 @@ def witness_histories():
         ("jacobian-first", 8, [plain], [(0, ["get", {"attr": "face_jacobian"}])]),
         ("tree-system-switch", 16, [plain], [(0, ["ball", {"coords": "nodes", "system": "spherical", "metric": "haversine"}]),
                                                (0, ["ball", {"coords": "nodes", "system": "cartesian", "metric": "euclidean"}])]),
+        ("tree-revisit-count", 128, [plain], [(0, ["ball", {"coords": "nodes", "system": "spherical", "metric": "haversine"}]),
+                                                (0, ["ball", {"coords": "face centers", "system": "spherical", "metric": "haversine"}]),
+                                                (0, ["ball", {"coords": "nodes", "system": "spherical", "metric": "haversine"}])]),
         ("chunk-then-exodus", 0, [plain], [(0, ["chunk", {}]), (0, ["to_xarray", {"fmt": "exodus"}])]),
         ("chunk-then-cross-section", 0, [file_source("mpas")], [(0, ["chunk", {"n_node": 2, "n_face": 2, "n_edge": 3}]),
                                                                   (0, ["cross_section", {"lat": 25.0}])]),
@@ -1352,6 +1377,31 @@ def crosstalk_histories(rng, ops):
         projected = a[0] in EXPORT_OPS and a[1].get("proj")
         for c in (cells if projected else rng.sample(cells, 3)):
             out.append([(0, a), (0, ["get", {"attr": c}])])
+    return out
+
+
+def revisit_histories(rng, ops):
+    """cached wrappers revisited: kind A, then other kinds, then A again (A→B→A, A→B→C→A), for every
+    tree type × coordinate system, directly and through subset.nearest_neighbor"""
+    out = []
+    kinds = ["nodes", "face centers", "edge centers"]
+    for kind, system, metric in TREE_COMBOS[:4]:
+        def t(c):
+            return [kind, {"coords": c, "system": system, "metric": metric}]
+        for a in kinds:
+            others = [c for c in kinds if c != a]
+            rng.shuffle(others)
+            out.append([(0, t(a)), (0, t(others[0])), (0, t(a))])
+            out.append([(0, t(a)), (0, t(others[0])), (0, t(others[1])), (0, t(a))])
+    nns = [o for o in ops if o[0] == "nn"]
+    for a in kinds:
+        mine = [o for o in nns if o[1].get("element", "nodes") == a]
+        rest = [o for o in nns if o[1].get("element", "nodes") != a]
+        for _ in range(3):
+            if mine and rest:
+                out.append([(0, rng.choice(mine)), (0, rng.choice(rest)), (0, rng.choice(mine))])
+                out.append([(0, ["ball", {"coords": a, "system": "spherical", "metric": "haversine"}]), (0, rng.choice(rest)),
+                            (0, ["ball", {"coords": a, "system": "spherical", "metric": "haversine"}])])
     return out
 
 
@@ -1483,6 +1533,10 @@ def run(ctx):
             for h in crosstalk_histories(rng, OPS[sp["name"]]):
                 J.history([sp], h, "cross-talk")
         phase["saturation+cross-talk"] = round(time.time() - t0, 1)
+        # 2c. cached wrappers revisited (A→B→A, A→B→C→A) with boundary arguments
+        for sp in ([srcs[0], rng.choice(srcs)] if not (ctx.thorough or ctx.escalate) else srcs[:6]):
+            for h in revisit_histories(rng, OPS[sp["name"]]):
+                J.history([sp], h, "revisit")
         # 3. random histories
         budget = 150 if not (ctx.thorough or ctx.escalate) else 720
         n_hist = ctx.n(150, 2500)
